@@ -4,5 +4,6 @@ CONSTANTS
   MaxLen = 3
   MaxN = 2
   Emit = FALSE
+  Fixed = TRUE
 INVARIANT Inv
 CHECK_DEADLOCK FALSE
